@@ -120,6 +120,17 @@ class Mon(Monitor):
             else:
                 if not any(c.lost for c in w.conns if c.addr == r.addr):
                     out.append(V('fire', 'failed-without-loss/%s/%s' % (r.kind, val), 'request %d failed with %s' % (r.idx, val)))
+        for ci, p in rx:
+            c = w.conns[ci]
+            if c.connack_step is None or c.connack_step >= w.step or c.phase != 'connected' or \
+                    (c.close_req is not None and c.close_step < w.step) or (c.lost and c.lost_step < w.step):
+                continue
+            for r in w.reqs:
+                if r.kind in PKT and r.addr == c.addr and r.msgId == p['msgId'] and p['type'] == ACK[r.kind] and \
+                        r.ret == 'deferred' and r.call_step < w.step and not any(f[0] < w.step for f in r.fires) and \
+                        any(t[1] == ci and t[0] < w.step for t in r.tx) and not r.fires:
+                    out.append(V('fire', 'matching-ack-ignored/%s' % r.kind,
+                                 '%s(%d) delivered for pending request %d but its Deferred did not fire' % (p['type'], p['msgId'], r.idx)))
         for o in w.new_obs():
             if o[0] == 'exc':
                 out.append(V('exc', 'exception/%s/%s' % (o[1], o[3]), '%s: %s' % (o[3], o[4])))
